@@ -82,7 +82,8 @@ MASKS = [None, 0, 0, 12, F.ALL_MASK]
 # attribute samples a KMIP 2.0 request can carry (the library cannot encode the others by tag)
 NOT_20 = ("Digest", "Certificate Length", "Cryptographic Parameters")
 TABLE_1X = [a for a in M.ATTR_SAMPLES if a[0] not in LISTS and a[0] != "Sensitive"]
-TABLE_20 = [a for a in TABLE_1X if not a[0].startswith("x-") and a[0] not in NOT_20]
+TABLE_20 = [a for a in TABLE_1X if not a[0].startswith("x-") and a[0] not in NOT_20
+            and a[0] != "Operation Policy Name"]     # deprecated in 2.0: the library refuses to encode it
 ALL_NAMES = list(M.ATTR_NAMES)
 OTHER_KIND_CUR = [["Object Group", "g0"], ["Name", "n0"], ["Sensitive", False],
                   ["Application Specific Information", {"ns": "a", "data": "d0"}]]
@@ -436,11 +437,17 @@ def target_ok(before_attrs, after_attrs, stt):
 
 # ------------------------------------------------------------------ one history
 def _kindlabel(name):
-    if name in LISTS or name == "Sensitive":
+    if name in LISTS:
+        return "multivalued"          # Name / Object Group / Application Specific Information
+    if name == "Sensitive":
         return name
     if name in RO_API:
         return "read-only:" + name
     return "other"
+
+
+def _clslabel(name):
+    return name if name in LISTS else _kindlabel(name)
 
 
 def _key(sym, m):
@@ -588,7 +595,7 @@ def run_history(spec):
                 si, list(v), who, _short(conc, 600), statuses)
             for m in metas:
                 classes.add("form:" + m["form"])
-                classes.add("attr:" + _kindlabel(m["name"]))
+                classes.add("attr:" + _clslabel(m["name"]))
                 classes.add("addr:%s:%s" % (m["form"], m["addr"]))
             if len(conc) > 1:
                 classes.add("batch")
@@ -647,7 +654,7 @@ def run_history(spec):
                         lenient[t] = nxt
                     continue
                 classes.add("result:SUCCESS")
-                classes.add("ok:%s:%s" % (m["form"], _kindlabel(m["name"])))
+                classes.add("ok:%s:%s" % (m["form"], _clslabel(m["name"])))
                 touched.add(t)
                 kind = LISTS.get(m["name"])
                 cur_len = len(cands[t][0][kind]) if kind else None
@@ -806,13 +813,15 @@ def _item(draw, nobj, v):
                 return {"f": f, "t": t, "name": a[0], "val": ["lit", a[1]], "ix": _ix(draw)}
             n = draw(st.sampled_from(ALL_NAMES + [None]))
             return {"f": f, "t": t, "name": n, "ix": _ix(draw)}
+        ix = _ix(draw)
+        if cls == "Sensitive" and draw(st.booleans()):
+            ix = ["absent"]            # single-valued: the server only takes the index-free form
         if f == "mod1":
-            return {"f": f, "t": t, "name": cls, "val": _val(draw, cls), "ix": _ix(draw)}
-        return {"f": f, "t": t, "name": cls, "ix": _ix(draw)}
-    f = draw(st.sampled_from(["set2"] * 5 + ["mod2"] * 7 + ["del2cur"] * 4 + ["del2ref"] * 4
-                             + ["del2none"]))
-    if f == "del2none":
-        return {"f": f, "t": t}
+            return {"f": f, "t": t, "name": cls, "val": _val(draw, cls), "ix": ix}
+        return {"f": f, "t": t, "name": cls, "ix": ix}
+    # (a 2.0 DeleteAttribute with neither current attribute nor reference cannot be encoded by
+    # the library; replay() still understands {"f": "del2none"})
+    f = draw(st.sampled_from(["set2"] * 5 + ["mod2"] * 7 + ["del2cur"] * 4 + ["del2ref"] * 4))
     if cls == "table":
         if f == "del2ref":
             return {"f": f, "t": t, "name": draw(st.sampled_from(ALL_NAMES))}
@@ -842,12 +851,13 @@ def _item(draw, nobj, v):
 def gen_history(draw, max_steps=25):
     nobj = draw(st.integers(2, 4))
     objs = []
+    sizes = st.sampled_from([0, 0, 1, 2, 2, 3])   # no operation ever adds an instance: start fuller
     for _ in range(nobj):
         objs.append({
             "otype": draw(st.sampled_from(H.OBJECT_TYPES)),
-            "names": draw(st.lists(st.integers(0, 6), max_size=3, unique=True)),
-            "groups": draw(st.lists(st.integers(0, 3), max_size=3)),
-            "asi": draw(st.lists(st.integers(0, 3), max_size=3, unique=True)),
+            "names": draw(st.lists(st.integers(0, 6), min_size=draw(sizes), max_size=3, unique=True)),
+            "groups": draw(st.lists(st.integers(0, 3), min_size=draw(sizes), max_size=3)),
+            "asi": draw(st.lists(st.integers(0, 3), min_size=draw(sizes), max_size=3, unique=True)),
             "mask": draw(st.sampled_from(MASKS)),
             "sensitive": draw(st.sampled_from([None, False, False, True])),
             "owner": draw(st.sampled_from(["alice", "alice", "alice", "bob"]))})
